@@ -175,6 +175,22 @@ def _index_source_cols(e):
     return out
 
 
+def _full_reach(ev):
+    """reach condition of an event, including the selection conditions of the enclosing loops that run over a filtered
+    list (rows kept under a condition by an earlier loop, a comprehension or an eagerly executed generator)"""
+    r = ev["reach"]
+    for lp in ev.get("loops") or ():
+        sp, iv = lp.get("space"), lp.get("ivar")
+        while sp is not None and sp.key[0] == "sub" and iv:
+            cond = sp.key[2]
+            fiv = sorted(sym.free_ivars(cond) - {iv})
+            if len(fiv) == 1 and iv not in sym.free_ivars(cond):
+                cond = sym.subst_ivar(cond, fiv[0], (iv, 0))
+            r = sym.And(r, cond)
+            sp = sp.parent
+    return r
+
+
 def check_matching_plot(project: Project, rep, qual):
     fi = project.function(qual)
     rep.analysed(fi)
@@ -190,7 +206,7 @@ def check_matching_plot(project: Project, rep, qual):
     # PL-SEG: exactly one segment per row with a non-(-1) entry
     total = sym.ZERO
     for ev in segs:
-        total = sym.add(total, sym.ITE(ev["reach"], sym.ONE, sym.ZERO))
+        total = sym.add(total, sym.ITE(_full_reach(ev), sym.ONE, sym.ZERO))
     loop_iv = None
     for ev in I.log:
         if ev["kind"] == "loop" and ev["fi"] is fi and ev["ivar"]:
@@ -354,8 +370,9 @@ def check_max_style(project: Project, rep, qual, I=None):
         elif wrong_col is not None:
             rep.refuted("PL-MAX", fi, ev["node"], f"the distinguished row is the argmax of column {sorted(wrong_col)}, not of the "
                                                   f"cost column 2")
-        elif unknown:
-            rep.unmodelled("PL-MAX", fi, ev["node"], "style arguments of the segment-drawing call not modelled")
+        elif unknown or I.unmodelled or I.lossy:
+            rep.unmodelled("PL-MAX", fi, ev["node"], "style arguments of the segment-drawing call not modelled (the run that "
+                                                     "reaches it is not exact)")
         else:
             rep.refuted("PL-MAX", fi, ev["node"], "the bottleneck pair is drawn with the same style as every other pair",
                         construct=f"{qual}: bottleneck pair style")
